@@ -529,6 +529,17 @@ func (c20) Eval(c *Chooser, env *Env) *Outcome {
 		}
 	}
 	o.probe("issues_checked", len(res.Errs))
+	// (b2) the whole result is independent of tool latency, completion order and schedule:
+	// identical to the canonical run (zero latency, non-preemptive, identity map order)
+	r0 := RunLint(w, nil, RunOpts{Canonical: true})
+	o.addRun(r0.K)
+	if runFailure("C20", r0.K) == nil && r0.Fatal == "" {
+		if what, cls := firstDiff(cmpOf(r0), cmpOf(res)); what != "" {
+			o.V = &Violation{Oracle: "schedule-independent-output", Class: "tools:" + cls,
+				Message: "with the integrations enabled the diagnostics depend on tool latency / completion order / schedule.\n  " + what}
+			return o
+		}
+	}
 	return o
 }
 
